@@ -28,7 +28,6 @@ theorem avar2_coord_range (t : Avar2) (coords : List Int) (i : Nat) (v : Int) :
     avar2Coord t coords i v = v ∨
     (-16384 ≤ avar2Coord t coords i v ∧ avar2Coord t coords i v ≤ 16384) := by
   unfold avar2Coord
-  simp only []
   split
   · split
     · right; exact clampUnit_range _
@@ -90,10 +89,7 @@ theorem avar2_without_store (m : Option (Nat × Nat × List Nat)) (axisCount : N
         simp only [List.zipIdx_cons, List.map_cons, ih]
         congr 1
         unfold avar2Coord
-        rcases m with _ | ⟨fmt, cnt, data⟩
-        · rfl
-        · simp only []
-          cases Tent.dsimGet fmt cnt data k <;> rfl
+        cases avar2Index ⟨m, none⟩ k <;> rfl
     rw [this]
     exact List.take_append_drop _ _
 
@@ -217,20 +213,21 @@ theorem scalar_f32_at_peak (axes : List (Int × Int × Int)) (coords : List Int)
 f32 quotient `(coord − start) / (peak − start)` of two exactly represented differences
 (`1.0 · x` is exact), i.e. the exact rational tent value rounded ONCE. -/
 theorem scalar_f32_one_axis (s p e c : Int) (hs : inI16 s) (hp : inI16 p) (he : inI16 e)
-    (hc : inI16 c) (hi : ¬ Tent.Ignored s p e) (h1 : s ≤ c) (h2 : c < p) :
+    (hc : inI16 c) (hi : ¬ Tent.Ignored s p e) (h1 : s < c) (h2 : c < p) :
     ∃ mA eA mB eB, computeScalarF32 [(s, p, e)] [c] = div f32 (.fin false mA eA) (.fin false mB eB) ∧
       (mA : Int) * 2 ^ (eA + 14).toNat = c - s ∧ (mB : Int) * 2 ^ (eB + 14).toNat = p - s := by
   have hco : CoordsI16 [c] := fun x hx => by simp at hx; subst hx; exact hc
   unfold computeScalarF32
   simp only [scalarGoF]
-  rcases step_cases one [c] s p e hco hs hp he with g | g | g | g | g
+  have hC : Val14 (coordF [c]) c := val14_f2 c hc
+  rcases axisStepF_cases one (coordF [c]) (f2ToF32 s) (f2ToF32 p) (f2ToF32 e) c s p e hC
+    (val14_f2 s hs) (val14_f2 p hp) (val14_f2 e he) with g | g | g | g | g
   · exact absurd g.1 hi
-  · have := g.2.1; simp at this; omega
-  · have := g.2.1; simp at this; omega
+  · have := g.2.1; unfold Tent.Ignored at hi; omega
+  · have := g.2.1; omega
   · rw [g.2.2.2]
-    have hA := val14_sub (coord_val14 [c] hco) (val14_f2 s hs) (natAbs_i16_diff hc hs)
+    have hA := val14_sub hC (val14_f2 s hs) (natAbs_i16_diff hc hs)
     have hB := val14_sub (val14_f2 p hp) (val14_f2 s hs) (natAbs_i16_diff hp hs)
-    simp only [List.headD_cons] at hA
     obtain ⟨mA, eA, hAe, hmA, heA1, heA2, hvA⟩ := val14_nonneg hA (by omega)
     obtain ⟨mB, eB, hBe, hmB, heB1, heB2, hvB⟩ := val14_nonneg hB (by omega)
     refine ⟨mA, eA, mB, eB, ?_, hvA, hvB⟩
@@ -241,13 +238,11 @@ theorem scalar_f32_one_axis (s p e c : Int) (hs : inI16 s) (hp : inI16 p) (he : 
       simp only [mul, one, Bool.bne_false, Nat.one_mul, Int.zero_add]
       rw [roundNE_exact f32 _ mA eA hmA (by show (-149 : Int) ≤ eA; omega)
         (by show eA + (bitLen mA : Int) ≤ 128; omega)]
-      split
-      · rename_i h; rw [h]
-        sorry
-      · rfl
+      have hne : mA ≠ 0 := by
+        intro h; rw [h, Int.natCast_zero, Int.zero_mul] at hvA; omega
+      simp [hne]
     rw [this]
-    rfl
-  · have := g.2.1; simp at this; omega
+  · have := g.2.1; omega
 
 /-! ## 4. float deltas that are exact -/
 
@@ -388,9 +383,7 @@ F2Dot14 units; `float_delta_at_peaks` says when) the new coordinate is EXACTLY
 theorem avar2_coord_integer_delta (t : Avar2) (coords : List Int) (i : Nat) (v : Int)
     (regions : List (List (Int × Int × Int))) (subs : List (Option Tent.SubTable))
     (o inner : Nat) (D : Int) (hstore : t.store = some (regions, subs))
-    (hidx : (match t.indexMap with
-      | some (fmt, cnt, data) => Tent.dsimGet fmt cnt data i
-      | none => some (0, i % 65536)) = some (o, inner))
+    (hidx : avar2Index t i = some (o, inner))
     (hdelta : computeFloatDelta regions subs o inner coords = some (ofInt f64 D))
     (hv : inI16 v) (hD : D.natAbs < 2 ^ 23) :
     avar2Coord t coords i v = clampUnit (v + D) := by
@@ -406,9 +399,7 @@ version-1 coordinate unchanged, up to the clamp. -/
 theorem avar2_coord_zero_delta (t : Avar2) (coords : List Int) (i : Nat) (v : Int)
     (regions : List (List (Int × Int × Int))) (subs : List (Option Tent.SubTable))
     (o inner : Nat) (hstore : t.store = some (regions, subs))
-    (hidx : (match t.indexMap with
-      | some (fmt, cnt, data) => Tent.dsimGet fmt cnt data i
-      | none => some (0, i % 65536)) = some (o, inner))
+    (hidx : avar2Index t i = some (o, inner))
     (hdelta : computeFloatDelta regions subs o inner coords = some zero)
     (hv : inI16 v) : avar2Coord t coords i v = clampUnit v := by
   have hz : zero = ofInt f64 0 := by decide
